@@ -280,14 +280,19 @@ func runC18O1(c *Ctx) {
 			}
 			// from the timer case: a close of the connections in this frame, or - when the function returns - after the
 			// call site one frame up, and so on
+			// (a timer case that goes on to wait for the end of the context - it only reports that the wait is long - caps nothing)
+			again := func(i ssa.Instruction) bool { return i == w.i || c18CtxWait(i) }
+			if c18CtxWait(start) {
+				continue
+			}
 			t := start
 			for fr := w.fr; fr != nil && !capped; fr = fr.parent {
 				for _, kk := range marksOf(fr).conns {
-					if kk == t || pathAvoiding(t, kk, func(i ssa.Instruction) bool { return i == w.i }) {
+					if kk == t || pathAvoiding(t, kk, again) {
 						capped, capPos = true, st.Pos
 					}
 				}
-				if _, open := exitReachableAvoiding(t, func(i ssa.Instruction) bool { return i == w.i }); !open || fr.site == nil {
+				if _, open := exitReachableAvoiding(t, again); !open || fr.site == nil {
 					break
 				}
 				if _, isCall := fr.site.(*ssa.Call); !isCall {
